@@ -110,3 +110,31 @@ V("C17", "single-star-kept", "F", "R3", R + "convert_dep5.py", 'return _SINGLE_A
 V("C17", "pattern-needs-no-lookbehind", "F", "R3", R + "convert_dep5.py", r're.compile(r"(?<!\*)\*(?!\*)")', r're.compile(r"\*(?!\*)")')
 V("C17", "key-renamed", "F", "R2", R + "convert_dep5.py", '"SPDX-FileCopyrightText": copyrights,', '"SPDX-FileCopyright": copyrights,')
 V("C17", "first-path-only", "F", "R2", R + "convert_dep5.py", "[_convert_asterisk(path) for path in list(paragraph.files)]", "[_convert_asterisk(path) for path in list(paragraph.files)[:1]]")
+
+# ----------------------------------------------------------------- C02
+EXP = R + "extract.py"
+V("C02", "tag-separator-optional", "F", "R2", EXP, 'r"^(.*?)SPDX-License-Identifier:[ \\t]+(.*?)" + _END_PATTERN', 'r"^(.*?)SPDX-License-Identifier:[ \\t]*(.*?)" + _END_PATTERN')
+V("C02", "greedy-value", "F", "R2", EXP, 'r"^(.*?)SPDX-FileContributor:[ \\t]+(.*?)" + _END_PATTERN', 'r"^(.*?)SPDX-FileContributor:[ \\t]+(.*)" + _END_PATTERN')
+V("C02", "header-2048", "F", "R5", EXP, "_HEADER_BYTES = 4096", "_HEADER_BYTES = 2048")
+V("C02", "no-seek", "F", "R5", EXP, "            # Reset read position\n            fp.seek(0)\n", "")
+V("C02", "parse-error-keeps-info", "F", "R5", EXP,
+  "                ).format(path=path)\n            )\n    return ReuseInfo()",
+  "                ).format(path=path)\n            )\n            return ReuseInfo(copyright_lines={'x'})\n    return ReuseInfo()")
+V("C02", "strict-decode", "F", "R5", EXP, 'rawdata.decode("utf-8", errors="replace")', 'rawdata.decode("utf-8", errors="strict")')
+V("C02", "rstrip-chars", "F", "R4", EXP, "        yield value.strip()\n", "        yield value.strip().rstrip('/*')\n")
+V("C02", "only-single-line-styles-terminators", "F", "R1", EXP, "                    if style.MULTI_LINE.end\n", "                    if style.MULTI_LINE.end and not style.SINGLE_LINE\n")
+V("C02", "snippet-limits-read", "F", "R5", EXP, "                read_limit = None\n", "                read_limit = _HEADER_BYTES * 2\n")
+V("C02", "no-break-after-match", "F", "R7", EXP, "                copyright_matches.add(match.groupdict()[\"copyright\"].strip())\n                break\n", "                copyright_matches.add(match.groupdict()[\"copyright\"].strip())\n")
+V("C02", "new-style-end-in-V", "F", "R3", R + "comment.py", '    MULTI_LINE = MultiLineSegments("{#", "", "#}")', '    MULTI_LINE = MultiLineSegments("{#", "", "-or-later")')
+V("C02", "reorder-special-endings", "S", "", EXP,
+  "                        r'\"\\s*/*>',\n                        r\"'\\s*/*>\",\n", "                        r\"'\\s*/*>\",\n                        r'\"\\s*/*>',\n")
+V("C02", "named-groups", "S", "", EXP, 'r"^(.*?)SPDX-License-Identifier:[ \\t]+(.*?)" + _END_PATTERN', 'r"^(?P<prefix>.*?)SPDX-License-Identifier:[ \\t]+(?P<value>.*?)" + _END_PATTERN')
+
+# ----------------------------------------------------------------- C12
+V("C12", "truthiness-again", "F", "R1", EXP, "    if ignore_start is None:\n        return text\n", "    if not ignore_start:\n        return text\n")
+V("C12", "truthiness-table", "F", "R2", EXP, "    if ignore_start is None:\n        return text\n", "    if not ignore_start:\n        return text\n")
+V("C12", "search-original-text", "F", "R3", EXP, "    text = filter_ignore_block(text)\n    spdx_tags", "    filtered = filter_ignore_block(text)\n    spdx_tags")
+V("C12", "stray-end-aborts", "F", "R2", EXP, "    if ignore_end > ignore_start:\n", "    if ignore_end < ignore_start:\n        return text\n    if ignore_end > ignore_start:\n")
+V("C12", "end-marker-kept", "F", "R2", EXP, "        ignore_end = text.index(REUSE_IGNORE_END) + len(REUSE_IGNORE_END)\n", "        ignore_end = text.index(REUSE_IGNORE_END)\n")
+V("C12", "no-recursion", "F", "R2", EXP, "        return text[:ignore_start] + filter_ignore_block(text[ignore_end:])\n", "        return text[:ignore_start] + text[ignore_end:]\n")
+V("C12", "is-not-none-form", "S", "", EXP, "    if ignore_start is None:\n        return text\n", "    if not (ignore_start is not None):\n        return text\n")
